@@ -24,7 +24,7 @@ inductive LoadKind
   | direct                   -- cfg.G = jcfg.F
   | setIfNotDefault          -- config.SetIfNotDefault(jcfg.F, &cfg.G): the zero value leaves cfg.G alone
   | parseDurations           -- config.ParseDurations entry, error returned: "" leaves cfg.G alone
-  | parseDurationsUnchecked  -- same, but the error of ParseDurations is dropped (crdt)
+  | parseDurationsUnchecked  -- same, but the error of ParseDurations is dropped (crdt before 639679f; never lossless)
   | parseOrZeroSIND          -- d,_ := time.ParseDuration(jcfg.F); SetIfNotDefault(d, &cfg.G)   (raft)
   | parseOrZeroDirect        -- d,_ := time.ParseDuration(jcfg.F); cfg.G = d                     (pubsubmon, informers)
   | zeroMeansDefault         -- if jcfg.F == 0 { cfg.G = DefaultX } else { cfg.G = jcfg.F }
